@@ -470,6 +470,12 @@ struct FnEmitter {
           dk = VD->isStaticLocal() ? "static_local" : "local";
           o.str("decl", declId(D));
           if (VD->isStaticLocal()) o.str("qname", C.qname(D));
+          // a local `constexpr int kFields = 8;` / `const int n = 8;` with a constant initialiser: its value
+          if (!DR->isValueDependent() && VD->getType().isConstQualified() && VD->getType()->isIntegralOrEnumerationType() &&
+              !VD->getType()->isBooleanType()) {
+            Expr::EvalResult R;
+            if (DR->EvaluateAsInt(R, *C.AC, Expr::SE_NoSideEffects)) o.num("cval", R.Val.getInt().getExtValue());
+          }
         } else {
           dk = "global";
           o.str("qname", C.qname(D));
